@@ -4,6 +4,7 @@ import (
 	"bufio"
 	"bytes"
 	"encoding/json"
+	"errors"
 	"fmt"
 	"io"
 	"math/big"
@@ -12,7 +13,9 @@ import (
 	"net/http"
 	"os"
 	"path/filepath"
+	"sort"
 	"strings"
+	"sync"
 	"sync/atomic"
 	"time"
 
@@ -85,6 +88,64 @@ type response struct {
 	headOnly bool
 }
 
+// liveness keeps the client-side watchdogs proportionate. A request that gets NO answer within its watchdog is
+// already a violation (judgeResponse); once three requests of this process have timed out the server is judged hung
+// and every later watchdog shrinks to max(20 s, 10 x median latency) so that a hung server costs minutes, not hours.
+// Nothing is decided here: the verdicts stay with the callers, and nothing changes before the third timeout.
+var liveness = &livenessTracker{}
+
+type livenessTracker struct {
+	mu       sync.Mutex
+	lat      []time.Duration
+	timeouts int
+}
+
+func (l *livenessTracker) median() time.Duration {
+	if len(l.lat) == 0 {
+		return 0
+	}
+	s := append([]time.Duration{}, l.lat...)
+	sort.Slice(s, func(i, j int) bool { return s[i] < s[j] })
+	return s[len(s)/2]
+}
+
+func (l *livenessTracker) limit(w time.Duration) time.Duration {
+	l.mu.Lock()
+	defer l.mu.Unlock()
+	if l.timeouts < 3 {
+		return w
+	}
+	short := 20 * time.Second
+	if m := 10 * l.median(); m > short {
+		short = m
+	}
+	if short < w {
+		return short
+	}
+	return w
+}
+
+func (l *livenessTracker) observe(rs response) {
+	l.mu.Lock()
+	defer l.mu.Unlock()
+	if rs.err != nil {
+		var ne net.Error
+		if errors.As(rs.err, &ne) && ne.Timeout() {
+			l.timeouts++
+		}
+		return
+	}
+	if len(l.lat) < 4096 {
+		l.lat = append(l.lat, time.Duration(rs.ret-rs.call))
+	}
+}
+
+func (l *livenessTracker) hung() bool {
+	l.mu.Lock()
+	defer l.mu.Unlock()
+	return l.timeouts >= 3
+}
+
 var clockBase = time.Now()
 
 func now() int64 { return int64(time.Since(clockBase)) }
@@ -94,8 +155,12 @@ var httpClient = &http.Client{Timeout: 0, Transport: &http.Transport{MaxIdleConn
 // send performs the request at the client boundary. The watchdog is generous
 // (hangs are decided by the caller).
 func send(addr string, rq *request, watchdog time.Duration) (rs response) {
+	watchdog = liveness.limit(watchdog)
 	rs.call = now()
-	defer func() { rs.ret = now() }()
+	defer func() {
+		rs.ret = now()
+		liveness.observe(rs)
+	}()
 	if rq.raw != "" {
 		rs.status, rs.body, rs.err = sendRaw(addr, rq, watchdog)
 		return rs
